@@ -59,6 +59,11 @@ def getattr(I, st, v, name):
         return
     if isinstance(v, Ref):
         e = st.get(v)
+        if e.kind == "obj" and "__memstream__" in e.attrs:
+            from . import bytesmodel
+
+            yield st, bytesmodel.memstream_getattr(I, st, v, name)
+            return
         if e.kind == "obj":
             if name == "__class__":
                 yield st, e.cls
@@ -111,6 +116,9 @@ def getattr(I, st, v, name):
     if isinstance(v, ClassVal):
         if name == "__name__":
             yield st, v.name
+            return
+        if ("classattr", id(v.node), name) in st.ghost:
+            yield st, st.ghost[("classattr", id(v.node), name)]
             return
         if M.is_enum_class(I, v):
             yield st, enum_member(I, st, v, name)
@@ -206,6 +214,14 @@ def getattr(I, st, v, name):
                 yield st, BoundMethod(m, v)
             return
     if isinstance(v, str):
+        yield st, str_method(I, st, v, name)
+        return
+    if isinstance(v, (bytes, bytearray)):
+        if name == "join":
+            from . import bytesmodel
+
+            yield st, simple("bytes.join", lambda I, st, items: bytesmodel.bytes_join(I, st, v, items))
+            return
         yield st, str_method(I, st, v, name)
         return
     if isinstance(v, tuple):
@@ -350,6 +366,11 @@ def setattr(I, st, obj, name, v, raw=False):
         yield st, None
         return
     if isinstance(obj, Opaque):
+        yield st, None
+        return
+    if isinstance(obj, ClassVal):
+        # class attribute rebinding (e.g. instance counters): kept per path
+        st.ghost[("classattr", id(obj.node), name)] = v
         yield st, None
         return
     raise Unsupported("attribute assignment on %r" % (obj,))
@@ -751,7 +772,7 @@ def str_method(I, st, s, name):
         def conc(x):
             if isinstance(x, Fraction):
                 return float(x)
-            if isinstance(x, (str, int, bool, type(None))):
+            if isinstance(x, (str, int, bool, bytes, type(None))):
                 return x
             if isinstance(x, tuple):
                 return tuple(conc(y) for y in x)
@@ -939,8 +960,12 @@ def make_builtins(I):
 
     def _len(I, st, a, k):
         v = a[0]
-        if isinstance(v, (tuple, str)):
+        from . import bytesmodel
+
+        if isinstance(v, (tuple, str, bytes)):
             yield st, len(v)
+        elif isinstance(v, bytesmodel.BytesVal):
+            yield st, v.length()
         elif isinstance(v, HeapSeq):
             yield st, v.length(I, st)
         elif isinstance(v, Ref):
@@ -1580,8 +1605,10 @@ def make_ext_modules(I):
     E["operator"] = {}
     E["warnings"] = {"warn": bi("warnings.warn", lambda I, st, a, k: iter([(st, None)]))}
 
-    from . import npmodel
+    from . import npmodel, bytesmodel
 
+    E["struct"] = bytesmodel.make_struct(I)
+    E["io"] = {"DEFAULT_BUFFER_SIZE": 8192}
     E["numpy"] = npmodel.make_module(I)
     E["numpy.linalg"] = npmodel.make_linalg(I)
     return E
